@@ -32,6 +32,7 @@ class Chain:
         self.domain = None     # text of the domain the stages are registered in
         self.out = None        # text of the output driver expression, resolved to "LAST" when it is the last stage
         self.idiom = None
+        self.link = "prev"     # what stage k (k >= 1) samples: "prev" for stage k-1, else the text of the expression
         self.lineno = 0
 
 
@@ -110,6 +111,33 @@ def find_chain(fn, out_target="self.o"):
                 ch.idiom, ch.count, ch.ctor, ch.src, ch.domain, ch.lineno = "prev", count, ctor, unparse(init[0]), _dom_of(augs[0]), lp.lineno
                 last_names |= {prev}
                 break
+    if ch.idiom is None:
+        # (c) indexed idiom: m.d[D] += F[0].eq(SRC); for K in range(1, N): m.d[D] += F[K].eq(F[K - 1])
+        for lp in ast.walk(fn):
+            if not (isinstance(lp, ast.For) and isinstance(lp.target, ast.Name) and len(lp.body) == 1 and isinstance(lp.body[0], ast.AugAssign)):
+                continue
+            k = lp.target.id
+            mm = pmatch(f"_V_F[{k}].eq(_V_E)", lp.body[0].value)
+            mr = pmatch("range(1, _V_N)", lp.iter)
+            if mm is None or mr is None or not isinstance(mm["_V_F"], ast.Name):
+                continue
+            ln = resolve_list(mm["_V_F"].id)
+            if ln is None:
+                continue
+            fname = mm["_V_F"].id
+            firsts = [(st, pmatch(f"{fname}[0].eq(_V_S)", st.value)) for st in ast.walk(fn) if isinstance(st, ast.AugAssign)]
+            firsts = [(st, m) for st, m in firsts if m is not None]
+            cnt = lists[ln].generators[0].iter
+            mc = pmatch("range(_V_N)", cnt)
+            n_ok = mc is not None and unparse(mr["_V_N"]) in (unparse(mc["_V_N"]), f"len({fname})", f"len({ln})")
+            if len(firsts) != 1 or not n_ok or _dom_of(firsts[0][0]) != _dom_of(lp.body[0]):
+                continue
+            ch.idiom, ch.count, ch.ctor = "indexed", unparse(cnt), lists[ln].elt
+            ch.src, ch.domain, ch.lineno = unparse(firsts[0][1]["_V_S"]), _dom_of(lp.body[0]), lp.lineno
+            e = unparse(mm["_V_E"])
+            ch.link = "prev" if e in (f"{fname}[{k} - 1]", f"{fname}[-1 + {k}]") else e
+            last_names = {f"{fname}[-1]", f"{ln}[-1]"}
+            break
     if ch.idiom is None:
         return None
     # the output driver
@@ -191,8 +219,9 @@ def r17a(model, ctx):
         kw.get("init") == "self._init" and kw.get("reset_less") == "self._reset_less"
     ctx.check(ok, R, "FFSynchronizer:stage-signal", "Signal(i.shape(), init=init, reset_less=reset_less)",
               f"each stage must have the input's shape, the given init and reset_less flag; found {unparse(ch.ctor)}", f"{CDC}:{ch.lineno}")
-    ctx.check(ch.src == "self.i", R, "FFSynchronizer:chain", "stage k samples stage k-1, stage 0 samples the input",
-              f"the register chain must start from self.i and feed each stage from the previous one; the first stage samples {ch.src}",
+    ctx.check(ch.src == "self.i" and ch.link == "prev", R, "FFSynchronizer:chain", "stage k samples stage k-1, stage 0 samples the input",
+              f"the register chain must start from self.i and feed each stage from the previous one; the first stage samples {ch.src}, "
+              f"stage k samples {'stage k-1' if ch.link == 'prev' else ch.link}",
               f"{CDC}:{fn.lineno}")
     ctx.check(ch.domain == "self._o_domain", R, "FFSynchronizer:chain-domain", "every stage is clocked by the output domain",
               f"every stage must be registered in m.d[self._o_domain]; found {ch.domain}", f"{CDC}:{fn.lineno}")
@@ -240,8 +269,10 @@ def r17b(model, ctx):
     ctx.check(ok, R, "AsyncFFSynchronizer:stages", "`stages` one-bit registers initialised to 1",
               f"the chain must consist of range(self._stages) one-bit registers with init=1 (asserted until released); found "
               f"{unparse(ch.ctor)} over {ch.count}", f"{CDC}:{ch.lineno}")
-    ctx.check(ch.src == "0", R, "AsyncFFSynchronizer:chain", "zeros are shifted in",
-              f"the chain must shift in constant 0; the first stage samples {ch.src}", f"{CDC}:{fn.lineno}")
+    ctx.check(ch.src == "0" and ch.link == "prev", R, "AsyncFFSynchronizer:chain", "zeros are shifted in, stage k samples stage k-1",
+              f"the chain must shift constant 0 through every stage in turn; the first stage samples {ch.src}, stage k samples "
+              f"{'stage k-1' if ch.link == 'prev' else ch.link} (stages fed in parallel release together: a metastable first stage "
+              f"reaches the output after one flop)", f"{CDC}:{fn.lineno}")
     ctx.check(ch.domain == "'async_ff'", R, "AsyncFFSynchronizer:chain-domain", "stages clocked in async_ff",
               f"stages must be registered in m.d.async_ff; found {ch.domain}", f"{CDC}:{fn.lineno}")
     rs = [a for a in em.assigns if a.target_text == "ResetSignal('async_ff')"]
